@@ -1,10 +1,156 @@
-import Rs1090.Proofs.Decode.Wp
+/-
+BDS 6,5 aircraft operation status — lemmas on `Model/Decode/Bds65.lean`:
+panic-freedom (C01), serialisability (C07) and ranges (C08), for every reader state: every
+subtype (airborne, surface, reserved 2..7) and every version (0, 1, 2, reserved 3..7), and the
+Comm-B entry point `readEnum`.
+-/
+import Rs1090.Proofs.Decode.FieldsLemmas
 import Rs1090.Model.Decode.Bds65
 namespace Rs1090.Model.Bds65
 open Rs1090 Rs1090.Model
 
-/-- STUB proof for the STUB reader (replaced together with the model) -/
-theorem read_noPanic : NoPanic read := by unfold read; exact noPanic_fail _
-theorem readEnum_noPanic : NoPanic readEnum := by unfold readEnum; exact noPanic_fail _
+/-! ### the parts that are read and not printed: panic-freedom only -/
+
+theorem reserved2_noPanic : NoPanic reserved2 := by
+  intro s; unfold NoPanicAt reserved2
+  wp_run
+  wp_if h <;> wp_run
+
+theorem capabilityClassAirborne_noPanic : NoPanic capabilityClassAirborne := by
+  intro s; unfold NoPanicAt capabilityClassAirborne
+  rw [wp_bind]; apply wp_of_noPanic reserved2_noPanic; intro _ _
+  wp_run
+  apply wp_of_noPanic reserved2_noPanic; intro _ _
+  wp_run
+
+theorem capabilityClassSurface_noPanic : NoPanic capabilityClassSurface := by
+  intro s; unfold NoPanicAt capabilityClassSurface
+  rw [wp_bind]; apply wp_of_noPanic reserved2_noPanic; intro _ _
+  wp_run
+
+theorem operationalMode_noPanic : NoPanic operationalMode := by
+  intro s; unfold NoPanicAt operationalMode
+  rw [wp_bind]; apply wp_of_noPanic reserved2_noPanic; intro _ _
+  wp_run
+
+/-! ### the printed part -/
+
+/-- post-condition of every sub-reader that produces the printed fields: key ids pairwise distinct
+    and none of `df`/`icao24`/`tisb`/`bds`; all values well formed; all in range (no BDS 6,5 key is in
+    the C08 table: the values are small unsigned integers and literal tags) -/
+def Good (fs : Fields) : Prop :=
+  idsOk outerKeys fs.ids = true ∧ fs.all entryWf = true ∧ fs.all entryInRange = true
+
+/-- closes `Good [fld k₁ v₁, …]` for literal keys outside the C08 table and atomic values -/
+macro "good_tac" : tactic =>
+  `(tactic| (refine ⟨rfl, by simp, ?_⟩
+             simp only [List.all_cons, List.all_nil, Bool.and_true, Bool.and_eq_true]
+             and_intros <;> exact entryInRange_free _ _ rfl (by simp)))
+
+theorem good_nil : Good [] := ⟨rfl, rfl, rfl⟩
+
+theorem versionEmpty_good : Good versionEmpty := by unfold versionEmpty; good_tac
+
+theorem versionReserved_spec (s : Rd) : wp versionReserved (fun fs _ => Good fs) s := by
+  unfold versionReserved; wp_run; good_tac
+
+theorem airborneV1_spec (s : Rd) : wp airborneV1 (fun fs _ => Good fs) s := by
+  unfold airborneV1; wp_run; good_tac
+
+theorem airborneV2_spec (s : Rd) : wp airborneV2 (fun fs _ => Good fs) s := by
+  unfold airborneV2; wp_run; good_tac
+
+theorem surfaceV1_spec (s : Rd) : wp surfaceV1 (fun fs _ => Good fs) s := by
+  unfold surfaceV1; wp_run; good_tac
+
+theorem surfaceV2_spec (s : Rd) : wp surfaceV2 (fun fs _ => Good fs) s := by
+  unfold surfaceV2; wp_run; good_tac
+
+theorem versionAirborne_spec (s : Rd) : wp versionAirborne (fun fs _ => Good fs) s := by
+  unfold versionAirborne
+  wp_run
+  wp_if h
+  · wp_run; exact versionEmpty_good
+  wp_if h
+  · exact airborneV1_spec _
+  wp_if h
+  · exact airborneV2_spec _
+  · exact versionReserved_spec _
+
+theorem versionSurface_spec (s : Rd) : wp versionSurface (fun fs _ => Good fs) s := by
+  unfold versionSurface
+  wp_run
+  wp_if h
+  · wp_run; exact versionEmpty_good
+  wp_if h
+  · exact surfaceV1_spec _
+  wp_if h
+  · exact surfaceV2_spec _
+  · exact versionReserved_spec _
+
+theorem airborne_spec (s : Rd) : wp airborne (fun fs _ => Good fs) s := by
+  unfold airborne
+  rw [wp_bind]; apply wp_of_noPanic capabilityClassAirborne_noPanic; intro _ _
+  rw [wp_bind]; apply wp_of_noPanic operationalMode_noPanic; intro _ _
+  wp_run
+  exact versionAirborne_spec _
+
+theorem surface_spec (s : Rd) : wp surface (fun fs _ => Good fs) s := by
+  unfold surface
+  rw [wp_bind]; apply wp_of_noPanic capabilityClassSurface_noPanic; intro _ _
+  wp_run
+  apply wp_of_noPanic operationalMode_noPanic; intro _ _
+  wp_run
+  exact versionSurface_spec _
+
+theorem bytesN_wp (k : Nat) (Q : List Nat → Rd → Prop) (s : Rd) (h : ∀ bs s', Q bs s') :
+    wp (bytesN k) Q s :=
+  wp_of_noPanic (noPanic_bytesN k) Q s h
+
+theorem reservedSubtype_spec (s : Rd) : wp reservedSubtype (fun fs _ => Good fs) s := by
+  unfold reservedSubtype
+  wp_run
+  apply bytesN_wp; intro _ _
+  wp_run
+  exact good_nil
+
+/-- everything at once: no panic; the result serialises and is in range -/
+theorem read_spec (s : Rd) : wp read (fun r _ => SerGood outerKeys r ∧ RangeGood r) s := by
+  unfold read
+  wp_run
+  refine wp_mono (Q := fun fs _ => Good fs) ?_ ?_
+  case refine_2 =>
+    intro fs s' hfs
+    rw [wp_pure]
+    obtain ⟨hids, hwf, hrg⟩ := hfs
+    have hk := idsOk_spec hids
+    exact ⟨serGood_of_fields _ _ hk.1 hk.2 hwf, rangeGood_of_fields _ hrg⟩
+  wp_if h
+  · exact airborne_spec _
+  wp_if h
+  · exact surface_spec _
+  · exact reservedSubtype_spec _
+
+theorem read_noPanic : NoPanic read := fun s => wp_mono (read_spec s) (fun _ _ _ => trivial)
+
+/-- the Comm-B entry point is the same reader -/
+theorem readEnum_noPanic : NoPanic readEnum := read_noPanic
+
+/-- C07: every subtype × version serialises (reserved subtypes as an empty map, after fix d0d10b1) -/
+theorem read_serGood : ∀ s, wp read (fun r _ => SerGood outerKeys r) s :=
+  fun s => wp_mono (read_spec s) (fun _ _ h => h.1)
+
+/-- C08: no BDS 6,5 key is constrained; the statement holds for the table as it is -/
+theorem read_rangeGood : ∀ s, wp read (fun r _ => RangeGood r) s :=
+  fun s => wp_mono (read_spec s) (fun _ _ h => h.2)
+
+/-- in a Comm-B register slot (nested object, nothing to avoid) the same holds -/
+theorem readEnum_serGood : ∀ s, wp readEnum (fun r _ => SerGood [] r) s := by
+  intro s
+  refine wp_mono (read_serGood s) ?_
+  intro r _ ⟨fs, e, hn, _, hw⟩
+  exact ⟨fs, e, hn, fun _ _ h => (by cases h), hw⟩
+
+theorem readEnum_rangeGood : ∀ s, wp readEnum (fun r _ => RangeGood r) s := read_rangeGood
 
 end Rs1090.Model.Bds65
